@@ -612,6 +612,39 @@ def consumer(ex, st, call, args):
                 else:
                     yield s2, acc, v
         return _consume(ex, st, T, on_item, lambda s, acc: _ret(s, ("adt", adt_p, ok_v, (acc,))), args[1])
+    if m == "try_for_each" and len(args) == 2:
+        dest = str(call.raw.get("dest_ty", ""))
+        if dest.startswith("core::result::Result"):
+            adt_p, ok_v, stop_v = "core::result::Result", "Ok", "Err"
+        elif dest.startswith("core::option::Option"):
+            adt_p, ok_v, stop_v = "core::option::Option", "Some", "None"
+        elif dest.startswith("core::ops::control_flow::ControlFlow"):
+            adt_p, ok_v, stop_v = "core::ops::control_flow::ControlFlow", "Continue", "Break"
+        else:
+            return NotImplemented
+
+        def on_item(s, acc, it):
+            for s2, v in call_fn_value(ex, s, args[1], [it]):
+                v = ex.canon(s2, v)
+                if v[0] == "adt" and v[1] == adt_p:
+                    if v[2] == ok_v:
+                        yield s2, acc, None
+                    else:
+                        yield s2, acc, v
+                    continue
+                # a symbolic outcome (e.g. the answer of a caller-supplied handler): both continuations
+                d = ("discr", v, adt_p)
+                names = [n for n, _ in ex.enum_variants(adt_p)] if ex.enum_variants(adt_p) else [ok_v, stop_v]
+                for val, name in enumerate(names):
+                    if d in s2.pc and s2.pc[d] != val:
+                        continue
+                    s3 = s2.clone()
+                    s3.assume(d, val)
+                    if name == ok_v:
+                        yield s3, acc, None
+                    else:
+                        yield s3, acc, v
+        return _consume(ex, st, T, on_item, lambda s, acc: _ret(s, ("adt", adt_p, ok_v, (UNIT,))), None)
     if m == "for_each" and len(args) == 2:
         def on_item(s, acc, it):
             for s2, v in call_fn_value(ex, s, args[1], [it]):
